@@ -206,7 +206,7 @@ class Evaluator:
             'forall': lambda rng, pred, **kw: all(pred(i) for i in rng),
             'exists': lambda rng, pred, **kw: any(pred(i) for i in rng),
             'is_bytes': lambda s: all(isinstance(x, int) and 0 <= x < 256 for x in s),
-            'seq_eq': lambda a, b: a == b,
+            'seq_eq': lambda a, b: a == b, 'mention': lambda x: True,
             'exc_origin': lambda: getattr(self.exc, 'name', ''),
             'result': self.result,
         })
